@@ -206,6 +206,9 @@ def lean_namespace_of(path):
 TIE_MODULES = {'C10c', 'C12c', 'C14b', 'C19b', 'C14s', 'C19s'}
 # Second route for a property whose theorems are stated on a regenerated definition: the same statements on the hand-written
 # model (theorem modules) together with the correspondence keys that compare that model with the code.
+# Tie modules whose statements are about regenerated definitions and are proved by a complete procedure: required whenever the named
+# functions were translated (not stubs).
+SRC_REQUIRED = {'C14s': ['tt.ttEntry.setNodeType', 'tt.ttEntry.setAge', 'tt.ttEntry.getNodeType', 'tt.ttEntry.getAge']}
 FALLBACK = {'C08': {'needs': 'search.calculateTime', 'modules': ['M08'], 'alt_keys': {'budget': 'budgeth'}}}
 
 
@@ -273,6 +276,12 @@ def obligations(prop, tier, log, untranslated=()):
             names = thm_names([tp])
             lost = [n for n in names if re.search(r'\b' + re.escape(n.split('.')[-1]) + r'\b', outt)] or ['<' + tm + '>']
             res['ties_lost'].append({'module': tm, 'theorems': lost, 'output': outt[-1500:]})
+            need = SRC_REQUIRED.get(os.path.basename(tp)[:-5])
+            if need and not any(f in untranslated for f in need):
+                # statements about regenerated definitions that are decided completely (proved iff true): a failure is a broken obligation
+                res['ok'] = False
+                res['failed'] = sorted(set(res['failed'] + lost))
+                res['output'] = outt[-4000:]
     # forbidden constructs anywhere in the Lean sources
     srcs = glob.glob(os.path.join(LEAN, 'Clemens', '**', '*.lean'), recursive=True)
     bad = []
